@@ -1289,3 +1289,15 @@ package mail
 //@ at mail.msgWriter.addFiles mail.File.setHeader#2 before assert[C01,C11:file-encoding-announced-is-applied] arg1 == "Content-Transfer-Encoding"
 //@ at mail.msgWriter.addFiles mail.File.setHeader#2 after ghost[C01,C11:g] file.cteannounced = arg2
 //@ at mail.msgWriter.addFiles mail.msgWriter.writeBody#1 before assert[C01,C11:file-encoding-announced-is-applied] file.cteannounced == encoding
+// C02 (continued): the other functions that write the generic-header map directly - the MDN setters store
+// Address.String() values (no line break, assumed of net/mail), Reset starts from an empty map
+//@ func mail.Msg.RequestMDNTo (rcpts) (err)
+//@   requires[C02:inv] m != nil && ghsafe(m)
+//@   ensures[C02:inv] ghsafe(m)
+//@   loop 1 invariant[C02:inv] ghsafe(m) && m.genHeader != nil && valsafe(addresses) && freshslice(addresses)
+//@ func mail.Msg.RequestMDNAddTo (rcpt) (err)
+//@   requires[C02:inv] m != nil && m.genHeader != nil && ghsafe(m)
+//@   ensures[C02:inv] ghsafe(m)
+//@ func mail.Msg.Reset ()
+//@   requires[C02:inv] m != nil
+//@   ensures[C02:inv] ghsafe(m)
